@@ -53,6 +53,30 @@ Proof. unfold job_tasks. apply flat_map_app. Qed.
 Lemma msg_tasks_app a b : msg_tasks (a ++ b) = msg_tasks a ++ msg_tasks b.
 Proof. unfold msg_tasks. apply flat_map_app. Qed.
 
+(* tasks that were selected to run and whose result the main thread has not processed yet:
+   queued jobs, tasks a worker is executing, results waiting in the queue *)
+Definition res_tasks (ms : list msg) : list name := flat_map (fun m => match m with MResult k => [k] | _ => [] end) ms.
+Lemma res_tasks_app a b : res_tasks (a ++ b) = res_tasks a ++ res_tasks b.
+Proof. unfold res_tasks. apply flat_map_app. Qed.
+Definition cnt (l : list name) (k : name) : nat := count_occ N.eq_dec l k.
+Lemma cnt_app a b k : cnt (a ++ b) k = (cnt a k + cnt b k)%nat.
+Proof. apply count_occ_app. Qed.
+Lemma cnt_In l k : In k l <-> (cnt l k > 0)%nat.
+Proof. apply count_occ_In. Qed.
+Lemma cnt_notin l k : ~ In k l -> cnt l k = 0%nat.
+Proof. apply count_occ_not_In. Qed.
+Definition busy_of (s : wst) : list name := match s with WBusy k => [k] | _ => [] end.
+Lemma busy_tasks_cnt ws : forall w s k, (w < length ws)%nat ->
+  (cnt (busy_tasks (set_nth ws w s)) k + cnt (busy_of (nth w ws WExited)) k = cnt (busy_tasks ws) k + cnt (busy_of s) k)%nat.
+Proof.
+  induction ws as [|x ws IH]; intros w s k Hw; simpl in Hw; [lia|].
+  destruct w as [|w]; simpl.
+  - fold (busy_of s). fold (busy_of x). rewrite !cnt_app. lia.
+  - fold (busy_of x). rewrite !cnt_app. specialize (IH w s k ltac:(lia)). simpl in IH. lia.
+Qed.
+Lemma nth_lt_of {A} (l : list A) w d v : nth w l d = v -> v <> d -> (w < length l)%nat.
+Proof. intros E Hne. destruct (Nat.ltb_spec w (length l)); auto. rewrite nth_overflow in E by lia. congruence. Qed.
+
 Section Par.
 Variable tasks : name -> option task.
 Variable wake_rank : name -> name -> N.
@@ -105,10 +129,80 @@ Proof.
       eapply IH; eauto.
 Qed.
 
+(* the reporter / dep_manager events of the log, in order *)
+Definition proj (log : list pevent) : list event := flat_map (fun e => match e with PE e' => [e'] | _ => [] end) log.
+Definition is_pe (e : pevent) : bool := match e with PE _ => true | _ => false end.
+Lemma proj_app a b : proj (a ++ b) = proj a ++ proj b.
+Proof. unfold proj. apply flat_map_app. Qed.
+Lemma proj_map_PE tr : proj (map PE tr) = tr.
+Proof. induction tr; simpl; congruence. Qed.
+Lemma proj_nope l : (forall e, In e l -> is_pe e = false) -> proj l = [].
+Proof.
+  induction l as [|e l IH]; intros H; simpl; auto. rewrite IH by (intros e0 H0; apply H; right; exact H0).
+  pose proof (H e (or_introl eq_refl)) as He. destruct e; simpl in *; auto. discriminate.
+Qed.
+Lemma nope_pfinal l : (forall e, In e l -> is_pe e = false) -> forall x e, In e l -> pfinal x e = false.
+Proof. intros H x e He. specialize (H e He). destruct e; simpl in *; auto. discriminate. Qed.
+
+(* x was reported successful or up-to-date in the log *)
+Definition pgood (log : list pevent) (x : name) : Prop := good_in (proj log) x.
+Lemma pgood_app log evs x : pgood log x -> pgood (log ++ evs) x.
+Proof. unfold pgood. rewrite proj_app. apply good_in_app. Qed.
+
+(* every action start is preceded by a success / up-to-date report of each dependency *)
+Inductive pcordered : list pevent -> Prop :=
+| pco_nil : pcordered []
+| pco_snoc log e : pcordered log ->
+    (forall t w, e = PStart t w -> forall x, In x (static_deps t) -> pgood log x) ->
+    pcordered (log ++ [e]).
+
+Lemma pcordered_app_nostart log evs :
+  pcordered log -> forallb (fun e => negb (is_pstart e)) evs = true -> pcordered (log ++ evs).
+Proof.
+  revert log. induction evs as [|e evs IH]; intros log Ho Hn; simpl in *.
+  - rewrite app_nil_r. exact Ho.
+  - apply andb_true_iff in Hn. destruct Hn as [He Hn].
+    replace (log ++ e :: evs) with ((log ++ [e]) ++ evs) by (rewrite <- app_assoc; reflexivity).
+    apply IH; auto. constructor; auto. intros t w ->. discriminate.
+Qed.
+
+Lemma pcordered_split log : pcordered log ->
+  forall pre t w post, log = pre ++ PStart t w :: post -> forall x, In x (static_deps t) -> pgood pre x.
+Proof.
+  induction 1 as [|log e Ho IH He]; intros pre t w post E x Hx.
+  - destruct pre; discriminate.
+  - destruct post as [|p post'] using rev_ind.
+    + apply app_inj_tail in E. destruct E as [-> ->]. eapply He; eauto.
+    + clear IHpost'. rewrite app_comm_cons, app_assoc in E. apply app_inj_tail in E. destruct E as [-> _].
+      eapply IH; eauto.
+Qed.
+
+(* the tasks whose actions were started, in order *)
+Definition pstarts (log : list pevent) : list name := flat_map (fun e => match e with PStart k _ => [k] | _ => [] end) log.
+Lemma pstarts_app a b : pstarts (a ++ b) = pstarts a ++ pstarts b.
+Proof. unfold pstarts. apply flat_map_app. Qed.
+Lemma pstarts_map_PE tr : pstarts (map PE tr) = [].
+Proof. induction tr; simpl; auto. Qed.
+Lemma pstarts_none l : (forall t w, ~ In (PStart t w) l) -> pstarts l = [].
+Proof.
+  induction l as [|e l IH]; intros H; simpl; auto. rewrite IH by (intros t w H0; apply (H t w); right; exact H0).
+  destruct e; simpl; auto. exfalso. apply (H k w). left. reflexivity.
+Qed.
+
 (* a task whose job is queued / running / whose result is queued: it was selected to run and its
    dependencies had finished *)
 Definition ready (p : pstate) (k : name) : Prop :=
-  st_of (r_d (p_r p)) k <> SNone /\ forall x, In x (static_deps k) -> finished_in (r_tr (p_r p)) x.
+  st_of (r_d (p_r p)) k <> SNone /\ forall x, In x (static_deps k) -> good_in (r_tr (p_r p)) x.
+Lemma good_in_finished tr x : good_in tr x -> finished_in tr x.
+Proof. intros (e & A & B & _). apply finished_in_In. eauto. Qed.
+Lemma ready_deps p k : ready p k -> forall x, In x (static_deps k) -> finished_in (r_tr (p_r p)) x.
+Proof. intros [_ H] x Hx. apply good_in_finished. apply H. exact Hx. Qed.
+
+(* ... it is in its `run` phase (nothing reported yet), will not be handed over again, and occurs once *)
+Definition live (p : pstate) : list name :=
+  job_tasks (p_jobs p) ++ busy_tasks (p_workers p) ++ res_tasks (p_results p).
+Definition running_in (d : dstate) (k : name) : Prop := st_of d k = SRun /\ spent tasks d k.
+Definition running (p : pstate) (k : name) : Prop := running_in (r_d (p_r p)) k.
 
 Record PI (p : pstate) : Prop := {
   pi_ri : RI (r_d (p_r p)) (r_tr (p_r p));
@@ -116,8 +210,18 @@ Record PI (p : pstate) : Prop := {
   pi_sync : forall x, finished_in (firstn (p_seen p) (r_tr (p_r p))) x -> pfinished (p_log p) x;
   pi_ready : forall k, In k (job_tasks (p_jobs p) ++ busy_tasks (p_workers p) ++ msg_tasks (p_results p)) -> ready p k;
   pi_ord : pordered (p_log p);
-  pi_seen : (p_seen p <= length (r_tr (p_r p)))%nat
+  pi_seen : (p_seen p <= length (r_tr (p_r p)))%nat;
+  pi_run : forall k, In k (live p) -> running p k;
+  pi_cnt : forall k, (cnt (live p) k <= 1)%nat;
+  pi_proj : proj (p_log p) = firstn (p_seen p) (r_tr (p_r p));
+  pi_cord : pcordered (p_log p);
+  pi_once : forall k, (cnt (pstarts (p_log p)) k + cnt (job_tasks (p_jobs p)) k <= 1)%nat;
+  pi_sp : forall k, In k (pstarts (p_log p)) -> spent tasks (r_d (p_r p)) k
 }.
+
+Lemma spent_flags d k : spent tasks d k ->
+  early (n_pc (node_of d k)) = false /\ in_setup (n_pc (node_of d k)) = false.
+Proof. intros [E|[E _]]; rewrite E; auto. Qed.
 
 (* after sync the whole runner trace is reflected in the log *)
 Lemma sync_all p x : PI p -> finished_in (r_tr (p_r p)) x -> pfinished (p_log (sync p)) x.
@@ -135,23 +239,36 @@ Proof. apply firstn_all. Qed.
 
 Lemma sync_PI p : PI p -> PI (sync p).
 Proof.
-  intros HP. pose proof HP as [A B C D E F]. split; simpl; auto.
+  intros HP. pose proof HP as [A B C D E F G H I J]. split; simpl; auto.
   - intros x Hx. rewrite firstn_all in Hx. apply (sync_all p x HP Hx).
   - apply pordered_app_nostart; auto. induction (skipn _ _); simpl; auto.
+  - rewrite proj_app, proj_map_PE, I, firstn_all. apply firstn_skipn.
+  - apply pcordered_app_nostart; auto. induction (skipn _ _); simpl; auto.
+  - intros k. rewrite pstarts_app, pstarts_map_PE, app_nil_r. apply (pi_once _ HP).
+  - intros k Hk. rewrite pstarts_app, pstarts_map_PE, app_nil_r in Hk. apply (pi_sp _ HP). exact Hk.
 Qed.
 
 Lemma plog_PI p evs :
-  PI p -> (forall t w, In (PStart t w) evs -> forall x, In x (static_deps t) -> finished_in (r_tr (p_r p)) x) ->
-  (forall x e, In e evs -> pfinal x e = false) ->
+  PI p -> (forall t w, In (PStart t w) evs ->
+             (forall x, In x (static_deps t) -> good_in (r_tr (p_r p)) x) /\ evs = [PStart t w] /\
+             ~ In t (pstarts (p_log p)) /\ ~ In t (job_tasks (p_jobs p)) /\ spent tasks (r_d (p_r p)) t) ->
+  (forall e, In e evs -> is_pe e = false) ->
   PI (plog p evs).
 Proof.
-  intros HP Hs Hnf. pose proof (sync_PI p HP) as HS. unfold plog.
-  set (q := sync p) in *. destruct HS as [A B C D E F].
+  intros HP Hs0 Hnf.
+  assert (Hs : forall t w, In (PStart t w) evs -> forall x, In x (static_deps t) -> good_in (r_tr (p_r p)) x)
+    by (intros t w Hin; apply (Hs0 t w Hin)).
+  pose proof (sync_PI p HP) as HS. unfold plog.
+  assert (Iq : proj (p_log (sync p)) = r_tr (p_r p)).
+  { rewrite (pi_proj _ HS). cbn [p_seen p_r sync]. apply firstn_all. }
+  assert (Hgood : forall x, good_in (r_tr (p_r p)) x -> pgood (p_log (sync p)) x).
+  { intros x Hx. unfold pgood. rewrite Iq. exact Hx. }
+  set (q := sync p) in *. pose proof HS as [A B C D E F G H I J].
   split; simpl; auto.
   - intros x Hx. apply pfinished_app. apply C. exact Hx.
   - clear C D.
     assert (Hall : forall x, finished_in (r_tr (p_r p)) x -> pfinished (p_log q) x) by (intros x Hx; apply sync_all; auto).
-    assert (G : forall l log0, pordered log0 ->
+    assert (G0 : forall l log0, pordered log0 ->
                (forall x, finished_in (r_tr (p_r p)) x -> pfinished log0 x) ->
                (forall t w, In (PStart t w) l -> forall x, In x (static_deps t) -> finished_in (r_tr (p_r p)) x) ->
                pordered (log0 ++ l)).
@@ -162,7 +279,34 @@ Proof.
         + constructor; auto. intros t w -> x Hx. apply Hf. apply (Hl t w); [left; reflexivity|exact Hx].
         + intros x Hx. apply pfinished_app. apply Hf. exact Hx.
         + intros t w Hin. apply (Hl t w). right. exact Hin. }
-    apply G; [exact E|exact Hall|exact Hs].
+    apply G0; [exact E|exact Hall|]. intros t w Hin x Hx. apply good_in_finished. apply (Hs t w Hin x Hx).
+  - rewrite proj_app, (proj_nope evs Hnf), app_nil_r. exact I.
+  - assert (G1 : forall l log0, pcordered log0 ->
+               (forall x, good_in (r_tr (p_r p)) x -> pgood log0 x) ->
+               (forall t w, In (PStart t w) l -> forall x, In x (static_deps t) -> good_in (r_tr (p_r p)) x) ->
+               pcordered (log0 ++ l)).
+    { induction l as [|e l IH]; intros log0 H0 Hf Hl.
+      - rewrite app_nil_r. exact H0.
+      - replace (log0 ++ e :: l) with ((log0 ++ [e]) ++ l) by (rewrite <- app_assoc; reflexivity).
+        apply IH.
+        + constructor; auto. intros t w -> x Hx. apply Hf. apply (Hl t w); [left; reflexivity|exact Hx].
+        + intros x Hx. apply pgood_app. apply Hf. exact Hx.
+        + intros t w Hin. apply (Hl t w). right. exact Hin. }
+    apply G1; [exact J|exact Hgood|exact Hs].
+  - intros k. rewrite pstarts_app, cnt_app. pose proof (pi_once _ HS k) as Ho. unfold q in Ho. cbn [p_log p_jobs sync] in Ho.
+    destruct (in_dec N.eq_dec k (pstarts evs)) as [Hin|Hnin]; [|rewrite (cnt_notin _ _ Hnin); lia].
+    unfold pstarts in Hin. apply in_flat_map in Hin. destruct Hin as (e & He & Hk).
+    destruct e; simpl in Hk; try contradiction. destruct Hk as [<-|[]].
+    destruct (Hs0 k0 w He) as (_ & -> & N1 & N2 & _). simpl.
+    destruct (N.eq_dec k0 k0) as [_|Hne]; [|congruence].
+    assert (E1 : cnt (pstarts (p_log p ++ map PE (skipn (p_seen p) (r_tr (p_r p))))) k0 = 0%nat).
+    { apply cnt_notin. rewrite pstarts_app, pstarts_map_PE, app_nil_r. exact N1. }
+    rewrite E1, (cnt_notin _ _ N2). lia.
+  - intros k Hk. rewrite pstarts_app in Hk. apply in_app_iff in Hk. destruct Hk as [Hk|Hk].
+    + apply (pi_sp _ HS). exact Hk.
+    + unfold pstarts in Hk. apply in_flat_map in Hk. destruct Hk as (e & He & Hk).
+      destruct e; simpl in Hk; try contradiction. destruct Hk as [<-|[]].
+      destruct (Hs0 k0 w He) as (_ & _ & _ & _ & Sp). exact Sp.
 Qed.
 
 Definition tasks_of (p : pstate) : list name :=
@@ -171,16 +315,21 @@ Definition tasks_of (p : pstate) : list name :=
 (* bookkeeping updates that keep runner state and log *)
 Lemma PI_update p p' :
   p_r p' = p_r p -> p_seen p' = p_seen p -> p_log p' = p_log p ->
-  (forall k, In k (tasks_of p') -> ready p k) -> PI p -> PI p'.
+  (forall k, In k (tasks_of p') -> ready p k) ->
+  (forall k, (cnt (live p') k <= cnt (live p) k)%nat) ->
+  (forall k, (cnt (job_tasks (p_jobs p')) k <= cnt (job_tasks (p_jobs p)) k)%nat) -> PI p -> PI p'.
 Proof.
-  intros Er Es El Ht [A B C D E F]. split; rewrite ?Er, ?Es, ?El; auto.
-  intros k Hk. specialize (Ht k Hk). unfold ready in *. rewrite Er. exact Ht.
+  intros Er Es El Ht Hc Hcj [A B C D E F G H I J K L]. split; rewrite ?Er, ?Es, ?El; auto.
+  - intros k Hk. specialize (Ht k Hk). unfold ready in *. rewrite Er. exact Ht.
+  - intros k Hk. unfold running. rewrite Er. apply G. apply cnt_In. apply cnt_In in Hk. specialize (Hc k). lia.
+  - intros k. specialize (Hc k). specialize (H k). lia.
+  - intros k. specialize (Hcj k). specialize (K k). lia.
 Qed.
 
 Lemma ready_tr p p' k :
   r_d (p_r p') = r_d (p_r p) -> (exists evs, r_tr (p_r p') = r_tr (p_r p) ++ evs) -> ready p k -> ready p' k.
 Proof.
-  intros Ed [evs Et] [A B]. split; rewrite ?Ed; auto. intros x Hx. rewrite Et. apply finished_in_app. apply B. exact Hx.
+  intros Ed [evs Et] [A B]. split; rewrite ?Ed; auto. intros x Hx. rewrite Et. apply good_in_app. apply B. exact Hx.
 Qed.
 
 (* the runner state of the main thread (thread flavour: shared) gets one more report *)
@@ -189,21 +338,24 @@ Lemma PI_with_r p r' evs :
   RI (r_d r') (r_tr r') ->
   PI (with_r p r').
 Proof.
-  intros [A B C D E F] Ed Et HR. split; simpl; auto.
+  intros HP0. pose proof HP0 as [A B C D E F G H]. intros Ed Et HR. split; simpl; auto.
   - rewrite Ed. exact B.
   - intros x Hx. apply C. rewrite Et in Hx. rewrite firstn_app in Hx.
     replace (p_seen p - length (r_tr (p_r p)))%nat with 0%nat in Hx by lia. simpl in Hx. rewrite app_nil_r in Hx. exact Hx.
   - intros k Hk. specialize (D k Hk). destruct D as [D1 D2]. split; simpl; rewrite ?Ed; auto.
-    intros x Hx. rewrite Et. apply finished_in_app. apply D2. exact Hx.
+    intros x Hx. rewrite Et. apply good_in_app. apply D2. exact Hx.
   - rewrite Et, app_length. lia.
+  - intros k Hk. unfold running. cbn [p_r with_r]. rewrite Ed. apply G. exact Hk.
+  - rewrite Et, firstn_app. replace (p_seen p - length (r_tr (p_r p)))%nat with 0%nat by lia. simpl. rewrite app_nil_r.
+    apply (pi_proj _ HP0).
+  - intros k Hk. rewrite Ed. apply (pi_sp _ HP0). exact Hk.
 Qed.
 
 Lemma RI_exec d tr k :
   RI d tr -> (forall x, In x (static_deps k) -> finished_in tr x) -> RI d (tr ++ [EExecute k]).
 Proof.
-  intros [I A Q S L O] Hd. split; auto.
-  - intros x Hx. apply finished_in_app. apply L. exact Hx.
-  - constructor; auto. intros t E x Hx. inversion E; subst. apply Hd. exact Hx.
+  intros HR Hd. pose proof (start_task_RI tasks {| r_d := d; r_final := 0; r_stop := false; r_td := []; r_tr := tr |} k HR Hd) as H.
+  exact H.
 Qed.
 
 Lemma in_tasks_of_jobs p k : In k (job_tasks (p_jobs p)) -> In k (tasks_of p).
@@ -222,11 +374,34 @@ Proof. revert i. induction l as [|x l IH]; intros [|i]; simpl; auto. Qed.
 Lemma nofinal_list evs : (forall e, In e evs -> forall x, pfinal x e = false) -> True.
 Proof. auto. Qed.
 
+(* the multiset of live tasks does not grow: unfold everything, use the count lemma of set_nth *)
+Ltac cnt_unfold :=
+  repeat match goal with x := _ : pstate |- _ => subst x end;
+  unfold live, put_job, start_worker;
+  cbn [p_jobs p_workers p_results p_r with_jobs with_workers with_results with_r with_sched with_counts plog sync];
+  rewrite ?job_tasks_app, ?res_tasks_app, ?busy_tasks_app, ?cnt_app.
+Ltac solve_cnt :=
+  let kk := fresh "kk" in intros kk; cnt_unfold;
+  repeat match goal with
+  | Hw : (?w < length ?ws)%nat |- context [busy_tasks (set_nth ?ws ?w ?s)] =>
+      let H := fresh "Hc" in pose proof (busy_tasks_cnt ws w s kk Hw) as H;
+      generalize dependent (cnt (busy_tasks (set_nth ws w s)) kk); intros
+  end;
+  repeat match goal with E : p_jobs _ = _ |- _ => rewrite E in * end;
+  repeat match goal with E : p_results _ = _ |- _ => rewrite E in * end;
+  repeat match goal with E : nth _ _ WExited = _ |- _ => rewrite E in * end;
+  simpl in *; rewrite ?cnt_app in *; simpl in *;
+  repeat match goal with
+  | |- context [N.eq_dec ?a ?b] => destruct (N.eq_dec a b)
+  | H : context [N.eq_dec ?a ?b] |- _ => destruct (N.eq_dec a b)
+  end; lia.
+
 Lemma worker_step_PI p w : PI p -> PI (worker_step p w).
 Proof.
   intros HP. unfold Parallel.worker_step.
   destruct (nth w (p_workers p) WExited) as [|k|] eqn:Ew; auto.
   - (* idle worker takes the next job *)
+    assert (Hw : (w < length (p_workers p))%nat) by (eapply nth_lt_of; [exact Ew|discriminate]).
     destruct (p_jobs p) as [|j js] eqn:Ej; auto.
     assert (Hjs : forall x, In x (job_tasks js) -> ready p x).
     { intros x Hx. apply PI_ready_of; auto. apply in_tasks_of_jobs. rewrite Ej. simpl. apply in_app_iff. auto. }
@@ -237,47 +412,62 @@ Proof.
     destruct j as [k| |].
     + (* a task *)
       assert (Hk : ready p k) by (apply PI_ready_of; auto; apply in_tasks_of_jobs; rewrite Ej; simpl; auto).
+      assert (Hk_o : (cnt (pstarts (p_log p)) k = 0 /\ cnt (job_tasks js) k = 0)%nat).
+      { pose proof (pi_once _ HP k) as Ho. rewrite Ej in Ho. simpl in Ho.
+        destruct (N.eq_dec k k) as [_|Hne]; [|congruence]. lia. }
+      assert (Hk_ns : ~ In k (pstarts (p_log p))) by (intros Hin; apply cnt_In in Hin; lia).
+      assert (Hk_nj : ~ In k (job_tasks js)) by (intros Hin; apply cnt_In in Hin; lia).
+      assert (Hk_sp : spent tasks (r_d (p_r p)) k).
+      { apply (pi_run _ HP k). unfold live. rewrite Ej. simpl. left. reflexivity. }
       destruct proc.
       * (* process flavour: the execute report travels through the result queue *)
         apply plog_PI.
-        -- apply (PI_update p); auto. intros x Hx. unfold tasks_of in Hx. simpl in Hx.
+        -- apply (PI_update p); auto; try solve_cnt. intros x Hx. unfold tasks_of in Hx. simpl in Hx.
            rewrite !in_app_iff in Hx. destruct Hx as [Hx|[Hx|Hx]]; auto.
            ++ destruct (busy_tasks_set_nth _ _ _ _ Hx) as [H|H]; auto. inversion H; subst. exact Hk.
            ++ rewrite msg_tasks_app in Hx. apply in_app_iff in Hx. destruct Hx as [Hx|Hx]; auto.
               simpl in Hx. destruct Hx as [<-|[]]. exact Hk.
-        -- intros t w' [E|[]] x Hx. inversion E; subst. simpl. apply (proj2 Hk). exact Hx.
-        -- intros x e [<-|[]]. reflexivity.
+        -- intros t w' [E|[]]. inversion E; subst. simpl.
+           split; [intros x Hx; apply (proj2 Hk); exact Hx|]. split; [reflexivity|]. split; [exact Hk_ns|]. split; [exact Hk_nj|exact Hk_sp].
+        -- intros e [<-|[]]. reflexivity.
       * (* thread flavour: the shared runner reports the execution itself *)
         apply plog_PI.
         -- set (p1 := with_jobs p js).
-           assert (H1 : PI p1) by (apply (PI_update p); auto; intros x Hx; unfold tasks_of in Hx; simpl in Hx;
-                                   rewrite !in_app_iff in Hx; destruct Hx as [Hx|[Hx|Hx]]; auto).
-           assert (H2 : PI (with_r p1 (start_task tasks (p_r p1) k))).
-           { apply (PI_with_r p1 _ [EExecute k]); auto. unfold start_task. simpl.
-             apply RI_exec; [apply (pi_ri _ HP)|apply (proj2 Hk)]. }
-           apply (PI_update (with_r p1 (start_task tasks (p_r p1) k))); auto.
-           intros x Hx. unfold tasks_of in Hx. simpl in Hx.
-           assert (Hr : forall y, ready p y -> ready (with_r p1 (start_task tasks (p_r p1) k)) y).
-           { intros y Hy. eapply ready_tr; [| |exact Hy]; simpl; auto. exists [EExecute k]. reflexivity. }
-           rewrite !in_app_iff in Hx. destruct Hx as [Hx|[Hx|Hx]]; auto.
-           destruct (busy_tasks_set_nth _ _ _ _ Hx) as [H|H]; auto. inversion H; subst. auto.
-        -- intros t w' [E|[]] x Hx. inversion E; subst. simpl. apply finished_in_app. apply (proj2 Hk). exact Hx.
-        -- intros x e [<-|[]]. reflexivity.
+           assert (H1 : PI (with_workers p1 (set_nth (p_workers p1) w (WBusy k)) (p_wtd p1))).
+           { apply (PI_update p); auto; try solve_cnt. intros x Hx; unfold tasks_of in Hx; simpl in Hx.
+             rewrite !in_app_iff in Hx; destruct Hx as [Hx|[Hx|Hx]]; auto.
+             destruct (busy_tasks_set_nth _ _ _ _ Hx) as [H|H]; auto. inversion H; subst. exact Hk. }
+           set (p2 := with_workers p1 (set_nth (p_workers p1) w (WBusy k)) (p_wtd p1)) in *.
+           assert (H2 : PI (with_r p2 (start_task tasks (p_r p2) k))).
+           { apply (PI_with_r p2 _ [EExecute k]); auto. unfold start_task. simpl.
+             apply RI_exec; [apply (pi_ri _ HP)|apply (ready_deps _ _ Hk)]. }
+           exact H2.
+        -- intros t w' [E|[]]. inversion E; subst. simpl.
+           split; [intros x Hx; apply good_in_app; apply (proj2 Hk); exact Hx|]. split; [reflexivity|]. split; [exact Hk_ns|]. split; [exact Hk_nj|exact Hk_sp].
+        -- intros e [<-|[]]. reflexivity.
     + (* hold *)
-      apply (PI_update p); auto. intros x Hx. unfold tasks_of in Hx. simpl in Hx.
+      apply (PI_update p); auto; try solve_cnt. intros x Hx. unfold tasks_of in Hx. simpl in Hx.
       rewrite !in_app_iff in Hx. destruct Hx as [Hx|[Hx|Hx]]; auto.
     + (* terminate *)
       set (p1 := with_jobs p js).
-      assert (H1 : PI p1) by (apply (PI_update p); auto; intros x Hx; unfold tasks_of in Hx; simpl in Hx;
-                              rewrite !in_app_iff in Hx; destruct Hx as [Hx|[Hx|Hx]]; auto).
+      assert (H1 : PI p1).
+      { apply (PI_update p); auto; try solve_cnt. intros x Hx; unfold tasks_of in Hx; simpl in Hx;
+          rewrite !in_app_iff in Hx; destruct Hx as [Hx|[Hx|Hx]]; auto. }
       assert (Hr1 : forall x, In x (tasks_of p1) -> ready p1 x) by (intros x Hx; apply PI_ready_of; auto).
+      assert (Hw1 : (w < length (p_workers p1))%nat) by exact Hw.
+      assert (Ew1 : nth w (p_workers p1) WExited = WIdle) by exact Ew.
       destruct proc.
       * set (mine := rev (nth w (p_wtd p1) [])).
         assert (H2 : PI (plog p1 (map (fun k0 => PTdRun k0 w) mine))).
         { apply plog_PI; auto.
           - intros t w' Hin. apply in_map_iff in Hin. destruct Hin as [y [E _]]. discriminate.
-          - intros x e Hin. apply in_map_iff in Hin. destruct Hin as [y [<- _]]. reflexivity. }
+          - intros e Hin. apply in_map_iff in Hin. destruct Hin as [y [<- _]]. reflexivity. }
+        assert (Hmine : res_tasks (map MTeardown mine) = []) by (clear; induction mine; simpl; auto).
         apply (PI_update (plog p1 (map (fun k0 => PTdRun k0 w) mine))); auto.
+        2:{ intros kk. unfold live. cbn [p_jobs p_workers p_results with_jobs with_workers with_results plog sync].
+            rewrite res_tasks_app, Hmine, app_nil_r, !cnt_app.
+            pose proof (busy_tasks_cnt (p_workers p1) w WExited kk Hw1) as Hc. rewrite Ew1 in Hc.
+            unfold p1 in *. cbn [p_jobs p_workers p_results with_jobs busy_of cnt count_occ] in *. lia. }
         intros x Hx. unfold tasks_of in Hx. simpl in Hx.
         assert (Hold : forall y, In y (tasks_of p1) -> ready (plog p1 (map (fun k0 => PTdRun k0 w) mine)) y).
         { intros y Hy. specialize (Hr1 y Hy). exact Hr1. }
@@ -288,26 +478,42 @@ Proof.
         -- rewrite msg_tasks_app in Hx. apply in_app_iff in Hx. destruct Hx as [Hx|Hx].
            ++ apply Hold. unfold tasks_of. rewrite !in_app_iff. auto.
            ++ exfalso. clear -Hx. induction mine; simpl in Hx; auto.
-      * apply (PI_update p1); auto. intros x Hx. unfold tasks_of in Hx. simpl in Hx.
+      * apply (PI_update p1); auto.
+        2:{ intros kk. unfold live. cbn [p_jobs p_workers p_results with_jobs with_workers with_results].
+            rewrite !cnt_app.
+            pose proof (busy_tasks_cnt (p_workers p1) w WExited kk Hw1) as Hc. rewrite Ew1 in Hc.
+            unfold p1 in *. cbn [p_jobs p_workers p_results with_jobs busy_of cnt count_occ] in *. lia. }
+        intros x Hx. unfold tasks_of in Hx. simpl in Hx.
         rewrite !in_app_iff in Hx. destruct Hx as [Hx|[Hx|Hx]].
         -- apply Hr1. unfold tasks_of. rewrite !in_app_iff. auto.
         -- destruct (busy_tasks_set_nth _ _ _ _ Hx) as [H|H]; [|discriminate]. apply Hr1. unfold tasks_of. rewrite !in_app_iff. auto.
         -- apply Hr1. unfold tasks_of. rewrite !in_app_iff. auto.
   - (* busy worker finishes its task *)
+    assert (Hw : (w < length (p_workers p))%nat) by (eapply nth_lt_of; [exact Ew|discriminate]).
     assert (Hk : ready p k) by (apply PI_ready_of; auto; apply in_tasks_of_busy; eapply busy_tasks_nth; eauto).
     assert (H1 : PI (plog p [PEnd k w])).
     { apply plog_PI; auto.
       - intros t w' [E|[]]. discriminate.
-      - intros x e [<-|[]]. reflexivity. }
+      - intros e [<-|[]]. reflexivity. }
     assert (Hr1 : forall x, In x (tasks_of p) -> ready (plog p [PEnd k w]) x) by (intros x Hx; apply (PI_ready_of p); auto).
+    assert (Hcnt : forall s ms, res_tasks ms = [] \/ (s = WIdle /\ res_tasks ms = [k]) -> busy_of s = [] -> forall kk,
+       (cnt (job_tasks (p_jobs p) ++ busy_tasks (set_nth (p_workers p) w s) ++ res_tasks (p_results p ++ ms)) kk
+        <= cnt (live p) kk)%nat).
+    { intros s ms Hms Hs kk. unfold live. rewrite res_tasks_app, !cnt_app.
+      pose proof (busy_tasks_cnt (p_workers p) w s kk Hw) as Hc. rewrite Ew, Hs in Hc. simpl in Hc.
+      destruct Hms as [->|[_ ->]]; simpl; lia. }
     destruct (is_interrupt tasks k).
-    + apply (PI_update (plog p [PEnd k w])); auto. intros x Hx. unfold tasks_of in Hx. simpl in Hx.
+    + apply (PI_update (plog p [PEnd k w])); auto.
+      2:{ intros kk. apply (Hcnt WExited [MExit k]); auto. }
+      intros x Hx. unfold tasks_of in Hx. simpl in Hx.
       rewrite !in_app_iff in Hx. destruct Hx as [Hx|[Hx|Hx]].
       * apply Hr1. unfold tasks_of. rewrite !in_app_iff. auto.
       * destruct (busy_tasks_set_nth _ _ _ _ Hx) as [H|H]; [|discriminate]. apply Hr1. unfold tasks_of. rewrite !in_app_iff. auto.
       * rewrite msg_tasks_app in Hx. apply in_app_iff in Hx. destruct Hx as [Hx|Hx]; [|destruct Hx].
         apply Hr1. unfold tasks_of. rewrite !in_app_iff. auto.
-    + apply (PI_update (plog p [PEnd k w])); auto. intros x Hx. unfold tasks_of in Hx. simpl in Hx.
+    + apply (PI_update (plog p [PEnd k w])); auto.
+      2:{ intros kk. apply (Hcnt WIdle [MResult k]); auto. }
+      intros x Hx. unfold tasks_of in Hx. simpl in Hx.
       rewrite !in_app_iff in Hx. destruct Hx as [Hx|[Hx|Hx]].
       * apply Hr1. unfold tasks_of. rewrite !in_app_iff. auto.
       * destruct (busy_tasks_set_nth _ _ _ _ Hx) as [H|H]; [|discriminate]. apply Hr1. unfold tasks_of. rewrite !in_app_iff. auto.
@@ -318,29 +524,40 @@ Qed.
 
 (* ---------- the main thread ---------- *)
 Lemma main_get_PI fuel : forall p m p', PI p -> main_get fuel p = (m, p') ->
-  PI p' /\ (forall k, m = Some (MResult k) \/ m = Some (MReport k) -> ready p' k).
+  PI p' /\ (forall k, m = Some (MResult k) \/ m = Some (MReport k) -> ready p' k) /\
+  (forall k, m = Some (MResult k) -> running p' k /\ ~ In k (live p')).
 Proof.
   induction fuel as [|fuel IH]; intros p m p' HP E; cbn [Parallel.main_get] in E.
-  { inversion E; subst. split; auto. intros k [H|H]; discriminate. }
+  { inversion E; subst. split; auto. split; [intros k [H|H]; discriminate|intros k H; discriminate]. }
   set (ws := enabled_workers p (length (p_workers p)) 0) in *.
   destruct ((if negb (is_nil (p_results p)) then 1 else 0) + length ws)%nat eqn:En.
-  { inversion E; subst. split.
-    - apply plog_PI; auto.
-      + intros t w [H|[]]. discriminate.
-      + intros x e [<-|[]]. reflexivity.
-    - intros k [H|H]; discriminate. }
+  { inversion E; subst. split; [|split; [intros k [H|H]; discriminate|intros k H; discriminate]].
+    apply plog_PI; auto.
+    + intros t w [H|[]]. discriminate.
+    + intros e [<-|[]]. reflexivity. }
   destruct (choose (S n) (p_sched p)) as [c s].
   assert (Hs : PI (with_sched p s)) by (apply (PI_update p); auto; intros x Hx; apply PI_ready_of; auto).
   destruct (negb (is_nil (p_results p)) && Nat.eqb c 0).
   - simpl in E. destruct (p_results p) as [|m0 rs] eqn:Er.
-    + inversion E; subst. split; auto. intros k [H|H]; discriminate.
-    + inversion E; subst. split.
-      * apply (PI_update (with_sched p s)); auto. intros x Hx. apply (PI_ready_of (with_sched p s)); auto.
-        unfold tasks_of in *. simpl in *. rewrite Er. rewrite !in_app_iff in *. destruct Hx as [Hx|[Hx|Hx]]; auto.
-        right; right. simpl. apply in_app_iff. auto.
+    + inversion E; subst. split; auto. split; [intros k [H|H]; discriminate|intros k H; discriminate].
+    + inversion E; subst.
+      assert (Hle : forall kk, (cnt (live (with_results (with_sched p s) rs)) kk + cnt (res_tasks [m0]) kk = cnt (live p) kk)%nat).
+      { intros kk. unfold live. cbn [p_jobs p_workers p_results with_results with_sched]. rewrite Er.
+        change (m0 :: rs) with ([m0] ++ rs). rewrite res_tasks_app, !cnt_app. lia. }
+      split; [|split].
+      * apply (PI_update (with_sched p s)); auto.
+        -- intros x Hx. apply (PI_ready_of (with_sched p s)); auto.
+           unfold tasks_of in *. simpl in *. rewrite Er. rewrite !in_app_iff in *. destruct Hx as [Hx|[Hx|Hx]]; auto.
+           right; right. simpl. apply in_app_iff. auto.
+        -- intros kk. specialize (Hle kk). change (live (with_sched p s)) with (live p). lia.
       * intros k Hk. assert (Hin : In k (tasks_of p)).
         { apply in_tasks_of_msgs. rewrite Er. simpl. destruct Hk as [H|H]; inversion H; subst; simpl; auto. }
         exact (PI_ready_of p k HP Hin).
+      * intros k Hk. inversion Hk; subst. pose proof (Hle k) as Hk1. simpl in Hk1.
+        destruct (N.eq_dec k k) as [_|Hne]; [|congruence].
+        pose proof (pi_cnt _ HP k) as Hk2. split.
+        -- apply (pi_run _ HP). apply cnt_In. lia.
+        -- intros Hin. apply cnt_In in Hin. lia.
   - eapply IH; [|exact E]. apply worker_step_PI. exact Hs.
 Qed.
 
@@ -359,20 +576,29 @@ Lemma PI_with_r_gen p r' :
   PI p -> RI (r_d r') (r_tr r') -> Pre (r_d r') ->
   (exists evs, r_tr r' = r_tr (p_r p) ++ evs) ->
   (forall k, In k (tasks_of p) -> st_of (r_d r') k <> SNone) ->
+  (forall k, In k (live p) -> running_in (r_d r') k) ->
+  (forall k, spent tasks (r_d (p_r p)) k -> spent tasks (r_d r') k) ->
   PI (with_r p r').
 Proof.
-  intros [A B C D E F] HR HPre [evs Et] Hst. split; simpl; auto.
+  intros HP0. pose proof HP0 as [A B C D E F G H]. intros HR HPre [evs Et] Hst Hrun Hsp. split; simpl; auto.
   - intros x Hx. apply C. rewrite Et in Hx. rewrite firstn_app in Hx.
     replace (p_seen p - length (r_tr (p_r p)))%nat with 0%nat in Hx by lia. simpl in Hx. rewrite app_nil_r in Hx. exact Hx.
   - intros k Hk. specialize (D k Hk). destruct D as [D1 D2]. split; simpl; auto.
-    intros x Hx. rewrite Et. apply finished_in_app. apply D2. exact Hx.
+    intros x Hx. rewrite Et. apply good_in_app. apply D2. exact Hx.
   - rewrite Et, app_length. lia.
+  - rewrite Et, firstn_app. replace (p_seen p - length (r_tr (p_r p)))%nat with 0%nat by lia. simpl. rewrite app_nil_r.
+    apply (pi_proj _ HP0).
+Qed.
+
+Lemma running_in_disp d d' y k : disp_post tasks d d' y -> running_in d k -> running_in d' k.
+Proof.
+  intros (_ & _ & _ & St & _ & Sp & _) [A B]. split; [rewrite St; exact A|apply Sp; exact B].
 Qed.
 
 Lemma next_job_loop_PI fuel : forall p completed g p',
   PI p -> (forall k, completed = Some k -> st_of (r_d (p_r p)) k <> SNone) ->
   next_job_loop fuel p completed = (g, p') ->
-  PI p' /\ (forall k, g = GJob (JTask k) -> ready p' k).
+  PI p' /\ (forall k, g = GJob (JTask k) -> ready p' k /\ running p' k /\ ~ In k (live p') /\ ~ In k (pstarts (p_log p'))).
 Proof.
   induction fuel as [|fuel IH]; intros p completed g p' HP Hc E; cbn [Parallel.next_job_loop] in E.
   { inversion E; subst. split; auto. intros k H; discriminate. }
@@ -381,6 +607,10 @@ Proof.
   pose proof (disp_send_spec tasks wake_rank calc_rank _ _ _ _ _ (ri_inv _ _ _ HR) (pi_pre _ HP) (ri_res _ _ _ HR) (ri_q _ _ _ HR) Hc Ed) as Hpost.
   pose proof (RI_disp tasks _ _ _ _ HR Hpost) as HR'.
   assert (Hst : forall x, st_of d x = st_of (r_d (p_r p)) x) by (destruct Hpost as (_ & _ & _ & S & _); exact S).
+  assert (Hrund : forall k, In k (live p) -> running_in d k).
+  { intros k Hk. eapply running_in_disp; [exact Hpost|]. apply (pi_run _ HP). exact Hk. }
+  assert (Hspd : forall z, spent tasks (r_d (p_r p)) z -> spent tasks d z)
+    by (destruct Hpost as (_ & _ & _ & _ & _ & Sp & _); exact Sp).
   assert (Hwd : forall (HPre : Pre d), PI (with_r p (with_d (p_r p) d))).
   { intros HPre. apply PI_with_r_gen; auto.
     - exists []. simpl. rewrite app_nil_r. reflexivity.
@@ -388,14 +618,24 @@ Proof.
   destruct y as [k| | |path|].
   - destruct (handed_of_post tasks _ _ _ Hpost) as (HK & Hcur & Hns).
     destruct (select_task tasks continue_ always (with_d (p_r p) d) k) as [b r1] eqn:Es.
-    pose proof (select_task_post tasks continue_ always (with_d (p_r p) d) k b r1 HR' HK Es) as (R1 & P1 & S1 & Pc1 & C1 & D1).
+    pose proof (select_task_post tasks continue_ always (with_d (p_r p) d) k b r1 HR' HK Es) as (R1 & P1 & S1 & Pc1 & C1 & D1 & T1 & O1).
     destruct (select_task_ext tasks continue_ always _ _ _ _ Es) as [Ext Sto].
+    assert (Hknl : ~ In k (live p)).
+    { intros Hin. apply Hns. apply (pi_run _ HP k Hin). }
     assert (H1 : PI (with_r p r1)).
-    { apply PI_with_r_gen; auto. intros x Hx.
-      destruct (N.eqb_spec x k) as [->|Hne]; [exact S1|].
-      rewrite Sto by auto. simpl. rewrite Hst. apply (proj1 (PI_ready_of p x HP Hx)). }
+    { apply PI_with_r_gen; auto.
+      - intros x Hx. destruct (N.eqb_spec x k) as [->|Hne]; [exact S1|].
+        rewrite Sto by auto. simpl. rewrite Hst. apply (proj1 (PI_ready_of p x HP Hx)).
+      - intros x Hx. assert (Hne : x <> k) by (intros ->; contradiction).
+        destruct (Hrund x Hx) as [A B]. split.
+        + rewrite O1 by auto. exact A.
+        + eapply spent_pc; [apply Pc1|]. exact B.
+      - intros z Hz. eapply spent_pc; [apply Pc1|]. apply Hspd. exact Hz. }
     destruct b.
-    + inversion E; subst. split; auto. intros k0 Ek. inversion Ek; subst. split; simpl; auto.
+    + inversion E; subst. split; auto. intros k0 Ek. inversion Ek; subst. split; [split; simpl; auto|].
+      { intros x Hx. apply (select_true_good tasks continue_ always (with_d (p_r p) d) k0 r1 HR' HK Es x Hx). }
+      split; [|split; [exact Hknl|intros Hin; apply Hns; apply (pi_sp _ HP k0 Hin)]].
+      split; [apply (T1 eq_refl)|]. apply (select_true_spent tasks continue_ always (with_d (p_r p) d) k0 r1 HR' HK Es).
     + eapply IH; [exact H1| |exact E]. intros k0 Ek. inversion Ek; subst. exact S1.
   - inversion E; subst. split; [|intros k H; discriminate].
     apply (PI_update (with_r p (with_d (p_r p) d))); auto.
@@ -412,7 +652,7 @@ Qed.
 Lemma get_next_job_PI fuel p completed g p' :
   PI p -> (forall k, completed = Some k -> st_of (r_d (p_r p)) k <> SNone) ->
   get_next_job fuel p completed = (g, p') ->
-  PI p' /\ (forall k, g = GJob (JTask k) -> ready p' k).
+  PI p' /\ (forall k, g = GJob (JTask k) -> ready p' k /\ running p' k /\ ~ In k (live p') /\ ~ In k (pstarts (p_log p'))).
 Proof.
   intros HP Hc E. unfold Parallel.get_next_job in E. destruct (r_stop (p_r p)).
   - inversion E; subst. split; auto. intros k H; discriminate.
@@ -420,21 +660,43 @@ Proof.
 Qed.
 
 (* ---------- queues ---------- *)
-Lemma put_job_PI p j : PI p -> (forall k, j = JTask k -> ready p k) -> PI (put_job p j).
+Lemma put_job_PI p j :
+  PI p -> (forall k, j = JTask k -> ready p k /\ running p k /\ ~ In k (live p) /\ ~ In k (pstarts (p_log p))) -> PI (put_job p j).
 Proof.
-  intros HP Hj. apply (PI_update p); auto. intros x Hx. unfold tasks_of, put_job in Hx. simpl in Hx.
-  rewrite job_tasks_app in Hx. rewrite !in_app_iff in Hx.
-  destruct Hx as [[Hx|Hx]|[Hx|Hx]].
-  - apply PI_ready_of; auto. apply in_tasks_of_jobs. exact Hx.
-  - destruct j; simpl in Hx; try contradiction. destruct Hx as [<-|[]]. apply Hj. reflexivity.
-  - apply PI_ready_of; auto. apply in_tasks_of_busy. exact Hx.
-  - apply PI_ready_of; auto. apply in_tasks_of_msgs. exact Hx.
+  intros HP Hj. pose proof HP as [A B C D E F G H]. split; auto.
+  - intros x Hx. unfold tasks_of, put_job in Hx. simpl in Hx.
+    rewrite job_tasks_app in Hx. rewrite !in_app_iff in Hx.
+    destruct Hx as [[Hx|Hx]|[Hx|Hx]].
+    + apply (PI_ready_of p); auto. apply in_tasks_of_jobs. exact Hx.
+    + destruct j; simpl in Hx; try contradiction. destruct Hx as [<-|[]]. apply Hj. reflexivity.
+    + apply (PI_ready_of p); auto. apply in_tasks_of_busy. exact Hx.
+    + apply (PI_ready_of p); auto. apply in_tasks_of_msgs. exact Hx.
+  - intros x Hx. unfold live, put_job in Hx. cbn [p_jobs p_workers p_results with_jobs] in Hx.
+    rewrite job_tasks_app in Hx. rewrite !in_app_iff in Hx.
+    destruct Hx as [[Hx|Hx]|[Hx|Hx]]; try (apply G; unfold live; rewrite !in_app_iff; auto; fail).
+    destruct j; simpl in Hx; try contradiction. destruct Hx as [<-|[]]. apply Hj. reflexivity.
+  - intros kk. unfold live, put_job. cbn [p_jobs p_workers p_results with_jobs].
+    rewrite job_tasks_app, !cnt_app. specialize (H kk). unfold live in H. rewrite !cnt_app in H.
+    destruct j as [k| |]; simpl; try lia.
+    destruct (N.eq_dec k kk) as [->|Hne]; [|lia].
+    destruct (Hj kk eq_refl) as (_ & _ & Hn & _). apply cnt_notin in Hn. unfold live in Hn. rewrite !cnt_app in Hn. lia.
+  - intros kk. unfold put_job. cbn [p_log p_jobs with_jobs]. rewrite job_tasks_app, cnt_app.
+    pose proof (pi_once _ HP kk) as Ho.
+    destruct j as [k| |]; simpl; try lia.
+    destruct (N.eq_dec k kk) as [->|Hne]; [|lia].
+    destruct (Hj kk eq_refl) as (_ & _ & Hn & Hs). apply cnt_notin in Hs.
+    assert (Hj0 : cnt (job_tasks (p_jobs p)) kk = 0%nat).
+    { apply cnt_notin. intros Hin. apply Hn. unfold live. rewrite !in_app_iff. auto. }
+    lia.
 Qed.
 
 Lemma start_worker_PI p : PI p -> PI (start_worker p).
 Proof.
-  intros HP. apply (PI_update p); auto. intros x Hx. apply PI_ready_of; auto.
-  unfold tasks_of, start_worker in *. simpl in Hx. rewrite busy_tasks_app in Hx. simpl in Hx. rewrite app_nil_r in Hx. exact Hx.
+  intros HP. apply (PI_update p); auto.
+  - intros x Hx. apply PI_ready_of; auto.
+    unfold tasks_of, start_worker in *. simpl in Hx. rewrite busy_tasks_app in Hx. simpl in Hx. rewrite app_nil_r in Hx. exact Hx.
+  - intros kk. unfold live, start_worker. cbn [p_jobs p_workers p_results with_workers].
+    rewrite busy_tasks_app. simpl. rewrite app_nil_r. lia.
 Qed.
 
 Lemma with_counts_PI p a b : PI p -> PI (with_counts p a b).
@@ -444,11 +706,14 @@ Lemma terminate_PI p : PI p -> PI (terminate p).
 Proof.
   intros HP. unfold Parallel.terminate. destruct (proc && negb (is_nil (p_workers p))); auto.
   apply plog_PI.
-  - apply (PI_update p); auto. intros x Hx. apply PI_ready_of; auto.
-    unfold tasks_of in *. simpl in Hx. rewrite busy_tasks_map_exited in Hx. simpl in Hx.
-    rewrite !in_app_iff in *. destruct Hx; auto.
+  - apply (PI_update p); auto.
+    + intros x Hx. apply PI_ready_of; auto.
+      unfold tasks_of in *. simpl in Hx. rewrite busy_tasks_map_exited in Hx. simpl in Hx.
+      rewrite !in_app_iff in *. destruct Hx; auto.
+    + intros kk. unfold live. cbn [p_jobs p_workers p_results with_workers].
+      rewrite busy_tasks_map_exited, !cnt_app. simpl. lia.
   - intros t w [E|[]]. discriminate.
-  - intros x e [<-|[]]. reflexivity.
+  - intros e [<-|[]]. reflexivity.
 Qed.
 
 Lemma start_procs_PI fuel n : forall p e p', PI p -> start_procs fuel n p = (e, p') -> PI p'.
@@ -485,25 +750,28 @@ Qed.
 
 (* the result of a task reaches the main thread *)
 Lemma process_result_PI p k :
-  PI p -> ready p k ->
+  PI p -> ready p k -> running p k -> ~ In k (live p) ->
   PI (with_r p (process_result tasks continue_ (p_r p) k)) /\
   st_of (r_d (process_result tasks continue_ (p_r p) k)) k <> SNone.
 Proof.
-  intros HP [Hst Hdeps].
+  intros HP [Hst Hdeps] [Hrun Hsp] Hnl.
   pose proof (pi_ri _ HP) as HR.
-  assert (He : early (n_pc (node_of (r_d (p_r p)) k)) = false).
-  { destruct (early (n_pc (node_of (r_d (p_r p)) k))) eqn:E; auto.
-    exfalso. apply Hst. apply (ok_early _ _ _ _ (node_of_ok tasks _ k (ri_inv _ _ _ HR)) E). }
+  destruct (spent_flags _ _ Hsp) as [He Hns].
   assert (HPx : PreX tasks (r_d (p_r p)) k) by (intros z Hz Hpc; apply (pi_pre _ HP); exact Hpc).
-  destruct (process_result_post tasks continue_ (p_r p) k HR He HPx) as [(R3 & P3 & S3)|Hint].
-  - split; auto. apply PI_with_r_gen; auto.
+  destruct (process_result_post tasks continue_ (p_r p) k HR He HPx Hns Hrun) as [(R3 & P3 & S3)|Hint].
+  - assert (Hsx : forall x, x <> k -> st_of (r_d (process_result tasks continue_ (p_r p) k)) x = st_of (r_d (p_r p)) x).
+    { intros x Hne. unfold Runner.process_result. destruct (t_outcome (get_task k)); simpl; auto;
+        rewrite set_status_st; apply N.eqb_neq in Hne; rewrite Hne; reflexivity. }
+    split; auto. apply PI_with_r_gen; auto.
     + unfold Runner.process_result. destruct (t_outcome (get_task k)); simpl;
         try (eexists; reflexivity); exists []; rewrite app_nil_r; reflexivity.
     + intros x Hx. destruct (N.eqb_spec x k) as [->|Hne]; [exact S3|].
-      assert (Hsx : st_of (r_d (process_result tasks continue_ (p_r p) k)) x = st_of (r_d (p_r p)) x).
-      { unfold Runner.process_result. destruct (t_outcome (get_task k)); simpl; auto;
-          rewrite set_status_st; apply N.eqb_neq in Hne; rewrite Hne; reflexivity. }
-      rewrite Hsx. apply (proj1 (PI_ready_of p x HP Hx)).
+      rewrite Hsx by auto. apply (proj1 (PI_ready_of p x HP Hx)).
+    + intros x Hx. assert (Hne : x <> k) by (intros ->; contradiction).
+      destruct (pi_run _ HP x Hx) as [A B]. split.
+      * rewrite Hsx by auto. exact A.
+      * eapply spent_pc; [apply process_result_pc|]. exact B.
+    + intros z Hz. eapply spent_pc; [apply process_result_pc|]. exact Hz.
   - unfold Runner.process_result. rewrite Hint. split; auto.
     apply (PI_update p); auto. intros x Hx. apply PI_ready_of; auto.
 Qed.
@@ -520,11 +788,12 @@ Proof.
   { inversion E; subst. exact HP. }
   destruct (p_count p). { inversion E; subst. exact HP. }
   destruct (main_get (S fuel * 4) p) as [m p1] eqn:Em.
-  destruct (main_get_PI _ _ _ _ HP Em) as [H1 Hr].
+  destruct (main_get_PI _ _ _ _ HP Em) as (H1 & Hr & Hrr).
   destruct m as [[k|k|k|k]|].
   - (* a result *)
     assert (Hk : ready p1 k) by (apply Hr; left; reflexivity).
-    destruct (process_result_PI p1 k H1 Hk) as [H2 S2].
+    destruct (Hrr k eq_refl) as [Hk2 Hk3].
+    destruct (process_result_PI p1 k H1 Hk Hk2 Hk3) as [H2 S2].
     set (p2 := with_r p1 (process_result tasks continue_ (p_r p1) k)) in *.
     destruct (hand_out (S fuel) (S (p_free p2)) (with_counts p2 0 (p_count p2)) (Some k)) as [e2 p3] eqn:Eh.
     assert (H3 : PI p3).
@@ -536,9 +805,9 @@ Proof.
     + eapply IH; eauto.
   - (* execute report forwarded by a worker process *)
     eapply IH; [|exact E]. apply PI_emit_main; auto.
-    apply RI_exec; [apply (pi_ri _ H1)|]. apply (proj2 (Hr k (or_intror eq_refl))).
+    apply RI_exec; [apply (pi_ri _ H1)|]. apply (ready_deps _ _ (Hr k (or_intror eq_refl))).
   - (* teardown report *)
-    eapply IH; [|exact E]. apply PI_emit_main; auto. apply RI_emit; [apply (pi_ri _ H1)|reflexivity].
+    eapply IH; [|exact E]. apply PI_emit_main; auto. apply RI_emit; [apply (pi_ri _ H1)|reflexivity|intros e0 x0 [<-|[]]; reflexivity].
   - inversion E; subst. apply terminate_PI. exact H1.
   - inversion E; subst. apply terminate_PI. exact H1.
 Qed.
@@ -553,21 +822,28 @@ Proof.
     apply PI_ready_of; auto. apply in_tasks_of_msgs.
     clear -Hm. induction (p_results p) as [|x l IH]; simpl in *; [contradiction|].
     destruct Hm as [->|Hm]; simpl; auto. apply in_app_iff. right. apply IH. exact Hm. }
+  assert (Hshape : forall e, In e evs -> (exists k, e = EExecute k) \/ (exists k, e = ETeardown k)).
+  { intros e He. unfold evs in He. apply in_flat_map in He. destruct He as [m [_ He]].
+    destruct m; simpl in He; try contradiction; destruct He as [<-|[]]; eauto. }
   assert (HRI : forall l tr, (forall k, In (EExecute k) l -> forall x, In x (static_deps k) -> finished_in tr x) ->
+                 (forall e, In e l -> (exists k, e = EExecute k) \/ (exists k, e = ETeardown k)) ->
                  RI (r_d (p_r p)) tr -> RI (r_d (p_r p)) (tr ++ l)).
-  { induction l as [|e l IH]; intros tr Hl HR.
+  { induction l as [|e l IH]; intros tr Hl Hsh HR.
     - rewrite app_nil_r. exact HR.
     - replace (tr ++ e :: l) with ((tr ++ [e]) ++ l) by (rewrite <- app_assoc; reflexivity).
       apply IH.
       + intros k Hk x Hx. apply finished_in_app. apply (Hl k); [right; exact Hk|exact Hx].
-      + destruct e; try (apply RI_emit; [exact HR|reflexivity]).
-        apply RI_exec; auto. intros x Hx. apply (Hl k); [left; reflexivity|exact Hx]. }
+      + intros e0 H0. apply Hsh. right. exact H0.
+      + destruct (Hsh e (or_introl eq_refl)) as [[k ->]|[k ->]].
+        * apply RI_exec; auto. intros x Hx. apply (Hl k); [left; reflexivity|exact Hx].
+        * apply RI_emit; [exact HR|reflexivity|intros e0 x0 [<-|[]]; reflexivity]. }
   assert (H1 : PI (with_r p (emit (p_r p) evs))).
-  { apply PI_emit_main; auto. apply HRI; [|apply (pi_ri _ HP)].
-    intros k Hk x Hx. apply (proj2 (Hev k Hk)). exact Hx. }
+  { apply PI_emit_main; auto. apply HRI; [|exact Hshape|apply (pi_ri _ HP)].
+    intros k Hk x Hx. apply (ready_deps _ _ (Hev k Hk)). exact Hx. }
   apply (PI_update (with_r p (emit (p_r p) evs))); auto.
-  intros x Hx. apply (PI_ready_of (with_r p (emit (p_r p) evs))); auto.
-  unfold tasks_of in *. simpl in *. rewrite !in_app_iff in *. destruct Hx as [Hx|[Hx|Hx]]; auto. destruct Hx.
+  - intros x Hx. apply (PI_ready_of (with_r p (emit (p_r p) evs))); auto.
+    unfold tasks_of in *. simpl in *. rewrite !in_app_iff in *. destruct Hx as [Hx|[Hx|Hx]]; auto. destruct Hx.
+  - intros kk. unfold live. cbn [p_jobs p_workers p_results with_results with_r]. rewrite !cnt_app. simpl. lia.
 Qed.
 
 Lemma PI_init sched sel : PI (p_init sched sel).
@@ -579,33 +855,107 @@ Proof.
   - intros k [].
   - constructor.
   - lia.
+  - intros k [].
+  - intros k. unfold live. simpl. lia.
+  - reflexivity.
+  - constructor.
+  - intros k. simpl. lia.
+  - intros k [].
 Qed.
 
 Lemma finish_PI p : PI p -> PI (sync (with_r p (finish (p_r p)))).
 Proof.
   intros HP. apply sync_PI. unfold finish. apply PI_emit_main; auto.
-  apply RI_emit; [apply (pi_ri _ HP)|]. simpl. apply noexec_teardowns.
+  apply (finish_RI tasks). apply (pi_ri _ HP).
 Qed.
+
+(* the state the run ends in: the invariant holds, the whole runner trace is in the log, and the log
+   returned is that log plus (possibly) the exception marker *)
+Definition marker_ok (mk : list pevent) : Prop :=
+  mk = [] \/ exists e, mk = [PE e] /\ is_fin e = false /\ is_exec e = false.
+
+Lemma parallel_final fuel nprocs sched sel :
+  exists p3 mk, PI p3 /\ p_seen p3 = length (r_tr (p_r p3)) /\ marker_ok mk /\
+    fst (run_parallel tasks wake_rank calc_rank continue_ always proc fuel nprocs sched sel) = p_log p3 ++ mk.
+Proof.
+  unfold run_parallel.
+  destruct (start_procs fuel nprocs (p_init sched sel)) as [e1 p1] eqn:E1.
+  pose proof (start_procs_PI fuel nprocs _ _ _ (PI_init sched sel) E1) as H1.
+  assert (Hfin : forall p2 mk, PI p2 -> marker_ok mk ->
+     exists p3 mk', PI p3 /\ p_seen p3 = length (r_tr (p_r p3)) /\ marker_ok mk' /\
+       p_log (sync (with_r p2 (finish (p_r p2)))) ++ mk = p_log p3 ++ mk').
+  { intros p2 mk H2 Hm. exists (sync (with_r p2 (finish (p_r p2)))), mk.
+    split; [apply finish_PI; exact H2|]. split; [reflexivity|]. split; [exact Hm|reflexivity]. }
+  assert (M0 : marker_ok []) by (left; reflexivity).
+  assert (M1 : forall e, is_fin e = false -> is_exec e = false -> marker_ok [PE e]) by (intros e A B; right; exists e; auto).
+  destruct e1; try (cbv beta iota zeta delta [fst]; apply Hfin; [exact H1|first [exact M0|apply M1; reflexivity]]).
+  set (p1' := with_counts p1 (p_free p1) (length (p_workers p1))).
+  assert (H1' : PI p1') by (apply with_counts_PI; exact H1).
+  destruct (deadlocked p1').
+  { cbv beta iota zeta delta [fst]. apply Hfin; [apply terminate_PI; exact H1'|apply M1; reflexivity]. }
+  destruct (main_loop fuel p1') as [e2 p2] eqn:E2.
+  pose proof (main_loop_PI fuel _ _ _ H1' E2) as H2.
+  destruct e2; cbv beta iota zeta delta [fst]; apply Hfin; auto; try (apply M1; reflexivity).
+  apply drain_PI. apply join_all_PI. exact H2.
+Qed.
+
+Lemma marker_nostart mk : marker_ok mk -> forallb (fun e => negb (is_pstart e)) mk = true.
+Proof. intros [->|(e & -> & _)]; reflexivity. Qed.
 
 (* the log of every parallel run, whatever the schedule *)
 Theorem parallel_dep_order fuel nprocs sched sel :
   pordered (fst (run_parallel tasks wake_rank calc_rank continue_ always proc fuel nprocs sched sel)).
 Proof.
-  unfold run_parallel.
-  destruct (start_procs fuel nprocs (p_init sched sel)) as [e1 p1] eqn:E1.
-  pose proof (start_procs_PI fuel nprocs _ _ _ (PI_init sched sel) E1) as H1.
-  assert (Hfin : forall p2 l, PI p2 -> forallb (fun e => negb (is_pstart e)) l = true ->
-     pordered (p_log (sync (with_r p2 (finish (p_r p2)))) ++ l)).
-  { intros p2 l H2 Hl. apply pordered_app_nostart; [apply (pi_ord _ (finish_PI p2 H2))|exact Hl]. }
-  destruct e1; try (cbv beta iota zeta delta [fst]; apply Hfin; [exact H1|reflexivity]).
-  set (p1' := with_counts p1 (p_free p1) (length (p_workers p1))).
-  assert (H1' : PI p1') by (apply with_counts_PI; exact H1).
-  destruct (deadlocked p1').
-  { cbv beta iota zeta delta [fst]. apply Hfin; [apply terminate_PI; exact H1'|reflexivity]. }
-  destruct (main_loop fuel p1') as [e2 p2] eqn:E2.
-  pose proof (main_loop_PI fuel _ _ _ H1' E2) as H2.
-  destruct e2; cbv beta iota zeta delta [fst]; apply Hfin; auto.
-  apply drain_PI. apply join_all_PI. exact H2.
+  destruct (parallel_final fuel nprocs sched sel) as (p3 & mk & HP & _ & Hm & ->).
+  apply pordered_app_nostart; [apply (pi_ord _ HP)|apply marker_nostart; exact Hm].
+Qed.
+
+(* the actions of a task start only after every declared dependency was reported successful or up-to-date *)
+Theorem parallel_contained fuel nprocs sched sel :
+  pcordered (fst (run_parallel tasks wake_rank calc_rank continue_ always proc fuel nprocs sched sel)).
+Proof.
+  destruct (parallel_final fuel nprocs sched sel) as (p3 & mk & HP & _ & Hm & ->).
+  apply pcordered_app_nostart; [apply (pi_cord _ HP)|apply marker_nostart; exact Hm].
+Qed.
+
+(* no task's actions are started twice, by any worker *)
+Theorem parallel_exec_once fuel nprocs sched sel :
+  NoDup (pstarts (fst (run_parallel tasks wake_rank calc_rank continue_ always proc fuel nprocs sched sel))).
+Proof.
+  destruct (parallel_final fuel nprocs sched sel) as (p3 & mk & HP & _ & Hm & ->).
+  rewrite pstarts_app. replace (pstarts mk) with (@nil name) by (destruct Hm as [->|(e & -> & _)]; reflexivity).
+  rewrite app_nil_r. apply (NoDup_count_occ' N.eq_dec). intros k Hk.
+  pose proof (pi_once _ HP k) as Ho. apply (count_occ_In N.eq_dec) in Hk. unfold cnt in Ho. lia.
+Qed.
+
+(* at most one final report per task *)
+Theorem parallel_one_final fuel nprocs sched sel :
+  fonce (proj (fst (run_parallel tasks wake_rank calc_rank continue_ always proc fuel nprocs sched sel))).
+Proof.
+  destruct (parallel_final fuel nprocs sched sel) as (p3 & mk & HP & Hs & Hm & ->).
+  rewrite proj_app, (pi_proj _ HP), Hs, firstn_all.
+  apply fonce_app; [apply (ri_once _ _ _ (pi_ri _ HP))| |].
+  - intros e x Hin Hf. destruct Hm as [->|(e0 & -> & Hnf & _)]; simpl in Hin; [contradiction|].
+    destruct Hin as [<-|[]]. apply is_final_is_fin in Hf. congruence.
+  - destruct Hm as [->|(e0 & -> & Hnf & _)]; simpl; [lia|]. rewrite Hnf. simpl. lia.
+Qed.
+
+(* ... and a task with a dependency that did not end well is never started *)
+Theorem parallel_bad_dep_never_runs fuel nprocs sched sel t w x e :
+  let log := fst (run_parallel tasks wake_rank calc_rank continue_ always proc fuel nprocs sched sel) in
+  In x (static_deps t) -> In (PE e) log -> is_final_ev x e = true -> is_good_ev e = false -> ~ In (PStart t w) log.
+Proof.
+  cbv zeta. intros Hx He Hf Hbad Hst.
+  pose proof (parallel_one_final fuel nprocs sched sel) as Ho.
+  pose proof (parallel_contained fuel nprocs sched sel) as Hc.
+  set (log := fst (run_parallel tasks wake_rank calc_rank continue_ always proc fuel nprocs sched sel)) in *.
+  apply in_split in Hst. destruct Hst as (pre & post & E).
+  destruct (pcordered_split log Hc pre t w post E x Hx) as (e' & Hin' & Hf' & Hg').
+  assert (Hin1 : In e (proj log)).
+  { unfold proj. apply in_flat_map. exists (PE e). split; auto. left; reflexivity. }
+  assert (Hin2 : In e' (proj log)).
+  { rewrite E, proj_app. apply in_or_app. left. exact Hin'. }
+  pose proof (fonce_two _ x e e' Ho Hin1 Hin2 Hf Hf') as ->. rewrite Hg' in Hbad. discriminate.
 Qed.
 
 End Par.
